@@ -90,4 +90,19 @@ def noNeedlessSplit (lb : Nat → Nat → Bool) (width : Nat) (input : List Cell
     (ls : List (List Cell)) : Bool :=
   splitRuns (lineIndex ls).toArray width (runs lb input) 0
 
+/-- The segmenter's own segmentation of a text: the chain of queries from the start, each with the
+state the previous one returned (`fuel` bounds the number of segments).  For the plain scanner this
+is uniseg's segmentation of the whole text ("runs of letters" in the sense of UAX #14). -/
+def segChain {σ : Type} (o : σ → List Cell → Nat × Bool × σ) : Nat → σ → List Cell → List (List Cell)
+  | 0, _, _ => []
+  | fuel + 1, st, rest =>
+    if rest.isEmpty then []
+    else rest.take (o st rest).1 :: segChain o fuel (o st rest).2.2 (rest.drop (o st rest).1)
+
+/-- "never split a run of letters that would fit on a line of its own" over a given list of runs
+(for the plain scanner: `segChain` of the segmenter): neighbouring non-whitespace graphemes of one
+run land on different lines only if the run without its trailing whitespace is wider than the line. -/
+def noNeedlessSplitRuns (rs : List (List Cell)) (width : Nat) (ls : List (List Cell)) : Bool :=
+  splitRuns (lineIndex ls).toArray width rs 0
+
 end VaxisModel.Spec.Wrap
